@@ -1,7 +1,9 @@
 // ctl_pub.cpp — controlled-schedule driver for cocls::publisher / cocls::subscriber (C16).   engine: pubt
 //
-// Real threads, exactly one runnable at a time (harness/ctl.h).  Thread 0 runs the publisher program; thread i+1 drives
-// subscriber i: style 0 blocking `bool(next())`, style 1 a coroutine doing `co_await next()` (started on thread i+1,
+// Real threads, exactly one runnable at a time (harness/ctl.h).  Thread 0 runs publisher program A, the last thread a
+// second publisher program B on the same publisher; a subscriber may be re-entrant (after every value it receives it
+// publishes / closes / kicks / destroys itself — for a coroutine resumed inside publish() that is nested in the waker's
+// wake-up loop).  Thread i+1 drives subscriber i: style 0 blocking `bool(next())`, style 1 a coroutine doing `co_await next()` (started on thread i+1,
 // resumed by whoever wakes it — the library resumes it on the waking thread), style 2 polling `next_ready()`.
 // Scheduling points: every acquisition of the queue mutex — while publisher.h is compiled the name std::mutex is mapped
 // to std::pub_mutex below, whose lock() hands the baton to the controller — and the guarded BLOCK hook in
@@ -45,7 +47,8 @@ namespace pt {
 
 struct Rec {
     int tid = 0;
-    int kind = 0;   // 0 advance, 1 advance_suspend, 2 get_value, 3 program op, 4 skipped program op, 5 setup
+    int kind = 0;   // 0 advance, 1 advance_suspend, 2 get_value, 3 program op / action, 4 skipped program op, 5 setup
+    long code = 200;   // kind 3: 200 / 203 op of program A / B, 205 action; kind 4: 202 / 204
     long arg = 0;   // subscriber id / program index
     long pos_after = 0;
     bool parked = false;
@@ -74,6 +77,7 @@ struct G {
 static G g;
 static thread_local bool t_pub_pending = false;   // the publisher's next critical section is the program op itself
 static thread_local long t_pub_index = 0;
+static thread_local long t_pub_code = 200;
 static thread_local long t_pub_rec = -1;
 static thread_local bool t_skip_yield = false;   // the thread has already yielded for its next lock acquisition
 
@@ -140,6 +144,7 @@ static void on_unlock(std::pub_mutex *m) {
         Rec r;
         r.tid = me;
         r.kind = 3;
+        r.code = t_pub_code;
         r.arg = t_pub_index;
         // woken = registered before, and the registration no longer holds it (a slot that was merely released by
         // ~subscriber keeps its awaiter and is not a wake-up)
@@ -189,9 +194,9 @@ static void print_lines() {
         Rec &r = g.recs[i];
         switch (r.kind) {
             case 5: vh::print_obs({0, 201, r.arg, 0, r.a, r.b, 0}); break;
-            case 4: vh::print_obs({(long)r.tid, 202, r.arg, 1, 0, 0, 0}); break;
+            case 4: vh::print_obs({(long)r.tid, r.code, r.arg, 1, 0, 0, 0}); break;
             case 3: {
-                std::vector<long> v{(long)r.tid, 200, r.arg, r.st, r.a, r.b, r.c};
+                std::vector<long> v{(long)r.tid, r.code, r.arg, r.st, r.a, r.b, r.c};
                 for (long w : r.woken) v.push_back(w);
                 vh::print_obs(v);
                 break;
@@ -229,16 +234,8 @@ struct fire {
     std::coroutine_handle<promise_type> h;
 };
 
-static fire awaiting_loop(long i, sub_t *s, long cnt) {
-    for (long k = 0; k < cnt; k++) {
-        bool r = co_await s->next();
-        pt::ret_event(i, r, r ? (long)(int)s->value() : 0, true);
-        if (!r) break;
-    }
-}
-
 struct SubSpec {
-    long mode, style, cnt;
+    long mode, style, cnt, act;
 };
 
 static bool small(long s) { return s >= 0 && s < 1000000; }
@@ -253,194 +250,247 @@ struct Obj {
     bool live = false;
 };
 
-static void run_case(const vh::Case &cs) {
-    // ---- parse (the same acceptance rules as PubThreadDefs.parse_case) ----
-    bool ok = cs.ops.size() >= 3 && cs.ops[0].size() == 2 && !cs.ops[1].empty() && cs.ops[1][0] == 100 &&
-              (cs.ops[1].size() - 1) % 3 == 0 && !cs.ops.back().empty() && cs.ops.back()[0] == 102;
-    long mn = 0, mx = 0;
-    std::vector<SubSpec> specs;
-    if (ok) {
-        mn = cs.ops[0][0];
-        mx = cs.ops[0][1];
-        ok = mn >= 1 && (mx == 0 || mx >= mn);
-        for (size_t k = 1; ok && k + 2 < cs.ops[1].size(); k += 3) {
-            SubSpec s{cs.ops[1][k], cs.ops[1][k + 1], cs.ops[1][k + 2]};
-            if (s.mode < 0 || s.mode > 2 || s.style < 0 || s.style > 2 || s.cnt < 0 || s.cnt >= 1000) ok = false;
-            specs.push_back(s);
-        }
-        if (specs.size() > 3) ok = false;
-    }
-    if (!ok) {
-        vh::print_obs({1, 0, 0, 0});
-        return;
-    }
-    std::vector<std::vector<long>> prog(cs.ops.begin() + 2, cs.ops.end() - 1);
-    std::vector<long> sched(cs.ops.back().begin() + 1, cs.ops.back().end());
-    const long nsubs = (long)specs.size();
-
-    pt::g.reset();
+// everything the threads of one case share (one thread runs at a time)
+struct World {
     std::optional<pub_t> pub;
-    if (mn == 1 && mx == 0) pub.emplace();
-    else pub.emplace(mx == 0 ? std::numeric_limits<std::size_t>::max() : (std::size_t)mx, (std::size_t)mn);
-    auto q = pub->get_queue();
-    pt::g.q = q.get();
-    pt::g.parked_coro.assign(nsubs, 0);
-    vh::print_obs({0, mn, mx, 0});
-
+    std::shared_ptr<pub_t::queue> q;
     std::map<long, Obj> objs;
-    auto fresh = [&](long s) -> void * {
+    std::vector<SubSpec> specs;
+    std::vector<std::coroutine_handle<>> coros;
+    long nsubs = 0;
+
+    Obj *find(long s) {
+        auto it = objs.find(s);
+        return it == objs.end() ? nullptr : &it->second;
+    }
+    void *fresh(long s) {
         Obj &x = objs[s];
         x.mem.reset(new unsigned char[sizeof(sub_t) + alignof(sub_t)]);
         void *p = x.mem.get();
         std::size_t sp = sizeof(sub_t) + alignof(sub_t);
         return std::align(alignof(sub_t), sizeof(sub_t), p, sp);
-    };
+    }
+
+    // one publisher-side op: a line of program A / B (code 200 / 203, skipped: 202 / 204) or the action of a re-entrant
+    // subscriber (code 205).  Which ops are executed follows PubThreadDefs.pub_tag; ops the model rejects only yield.
+    void exec_op(long code, long skip_code, long index, const std::vector<long> &op, bool action) {
+        const size_t n = op.size();
+        const int tid = ctl::Controller::tid();
+        int what = -1;   // -1 skip
+        if (n == 2 && op[0] == 0) what = 0;
+        else if (n >= 1 && op[0] == 1) what = 1;
+        else if (n == 1 && op[0] == 10) what = 10;
+        else if (n == 1 && op[0] == 12) what = 12;
+        else if (n == 2 && op[0] == 8 && small(op[1])) what = 8;
+        else if (n == 3 && op[0] == 4 && small(op[1]) && small(op[2]) && op[1] >= nsubs) what = 4;
+        else if (n == 2 && op[0] == 9 && small(op[1]) && (op[1] >= nsubs || action)) what = 9;
+        // what the op does (is the publisher still there, is the coroutine parked, ...) is decided when the step is
+        // scheduled, not when the thread arrives at it: yield first, the lock acquisition of the op then does not yield again
+        ctl::point("step");
+        const bool yielded = true;
+        if (!action && n == 2 && op[0] == 9 && small(op[1]) && op[1] < nsubs) {
+            if (specs[op[1]].style == 1 && pt::g.parked_coro[op[1]]) what = 9;
+        }
+        if (what < 0) {
+            if (!yielded) ctl::point("step");
+            pt::Rec r;
+            r.tid = tid;
+            r.kind = 4;
+            r.code = skip_code;
+            r.arg = index;
+            pt::g.recs.push_back(r);
+            return;
+        }
+        bool rejected = false;
+        if (what == 0 || what == 1 || what == 10 || what == 12) rejected = !pub;
+        else if (what == 8) {
+            Obj *x = find(op[1]);
+            rejected = !x || (!pub && !x->live);
+        } else if (what == 4) {
+            Obj *src = find(op[2]);
+            rejected = find(op[1]) || !src || !src->live;
+        } else if (what == 9) {
+            Obj *x = find(op[1]);
+            rejected = !x || !x->live;
+        }
+        if (rejected) {
+            if (!yielded) ctl::point("step");
+            pt::Rec r;
+            r.tid = tid;
+            r.kind = 3;
+            r.code = code;
+            r.arg = index;
+            r.st = 1;
+            pt::g.recs.push_back(r);
+            return;
+        }
+        pt::t_skip_yield = yielded;
+        pt::t_pub_pending = true;
+        pt::t_pub_index = index;
+        pt::t_pub_code = code;
+        pt::t_pub_rec = -1;
+        switch (what) {
+            case 0:
+                if (op[1] & 1) pub->publish(pint((int)op[1]));
+                else { const pint v((int)op[1]); pub->publish(v); }
+                break;
+            case 1: {
+                std::vector<pint> vs;
+                for (size_t i = 1; i < n; i++) vs.push_back(pint((int)op[i]));
+                pub->publish(vs.begin(), vs.end());
+                break;
+            }
+            case 10: pub->close(); break;
+            case 12: pub.reset(); break;
+            case 8: {
+                Obj *x = find(op[1]);
+                if (pub) pub->kick(x->p);
+                else x->p->kick_me();
+                break;
+            }
+            case 4: {
+                Obj *src = find(op[2]);
+                void *mem = fresh(op[1]);
+                Obj &x = objs[op[1]];
+                long rec = -1;
+                x.p = new (mem) sub_t(*src->p);
+                rec = pt::t_pub_rec;
+                x.live = true;
+                pt::g.handle2sub[(long)x.p->_h] = op[1];
+                if (rec >= 0) {
+                    pt::g.recs[rec].a = (long)x.p->_h;
+                    pt::g.recs[rec].b = (long)q->_regs[x.p->_h]._pos;
+                }
+                break;
+            }
+            case 9: {
+                Obj *x = find(op[1]);
+                if (!action && op[1] < nsubs && coros[op[1]]) {   // the parked coroutine goes away with its subscriber
+                    coros[op[1]].destroy();
+                    coros[op[1]] = nullptr;
+                    pt::g.parked_coro[op[1]] = 0;
+                }
+                x->p->~sub_t();
+                x->live = false;
+                break;
+            }
+        }
+        pt::t_pub_pending = false;
+        pt::t_skip_yield = false;
+    }
+
+    // the action of re-entrant subscriber i (PubThreadDefs.act_op); returns true if the subscriber destroyed itself
+    bool act(long i) {
+        long a = specs[i].act;
+        std::vector<long> op;
+        if (a == 1) op = {0, 9000 + i};
+        else if (a == 2) op = {10};
+        else if (a == 3) op = {8, (i + 1) % nsubs};
+        else if (a == 4) op = {8, i};
+        else if (a == 5) op = {9, i};
+        exec_op(205, 205, i, op, true);
+        return a == 5;
+    }
+};
+
+static fire awaiting_loop(World *w, long i, sub_t *s, long cnt) {
+    for (long k = 0; k < cnt; k++) {
+        bool r = co_await s->next();
+        pt::ret_event(i, r, r ? (long)(int)s->value() : 0, true);
+        if (!r) break;
+        if (w->specs[i].act && w->act(i)) break;
+    }
+}
+
+static void run_case(const vh::Case &cs) {
+    // ---- parse (the same acceptance rules as PubThreadDefs.parse_case) ----
+    bool ok = cs.ops.size() >= 3 && cs.ops[0].size() == 2 && !cs.ops[1].empty() && cs.ops[1][0] == 100 &&
+              (cs.ops[1].size() - 1) % 4 == 0 && !cs.ops.back().empty() && cs.ops.back()[0] == 102;
+    long mn = 0, mx = 0;
+    World w;
+    if (ok) {
+        mn = cs.ops[0][0];
+        mx = cs.ops[0][1];
+        ok = mn >= 1 && (mx == 0 || mx >= mn);
+        for (size_t k = 1; ok && k + 3 < cs.ops[1].size(); k += 4) {
+            SubSpec s{cs.ops[1][k], cs.ops[1][k + 1], cs.ops[1][k + 2], cs.ops[1][k + 3]};
+            if (s.mode < 0 || s.mode > 2 || s.style < 0 || s.style > 2 || s.cnt < 0 || s.cnt >= 1000 || s.act < 0 || s.act > 5)
+                ok = false;
+            w.specs.push_back(s);
+        }
+        if (w.specs.size() > 3) ok = false;
+    }
+    if (!ok) {
+        vh::print_obs({1, 0, 0, 0});
+        return;
+    }
+    std::vector<std::vector<long>> progA, progB;
+    for (size_t k = 2; k + 1 < cs.ops.size(); k++) {
+        const auto &l = cs.ops[k];
+        if (!l.empty() && l[0] == 103) progB.emplace_back(l.begin() + 1, l.end());
+        else progA.push_back(l);
+    }
+    std::vector<long> sched(cs.ops.back().begin() + 1, cs.ops.back().end());
+    const long nsubs = (long)w.specs.size();
+    w.nsubs = nsubs;
+
+    pt::g.reset();
+    if (mn == 1 && mx == 0) w.pub.emplace();
+    else w.pub.emplace(mx == 0 ? std::numeric_limits<std::size_t>::max() : (std::size_t)mx, (std::size_t)mn);
+    w.q = w.pub->get_queue();
+    pt::g.q = w.q.get();
+    pt::g.parked_coro.assign(nsubs, 0);
+    vh::print_obs({0, mn, mx, 0});
+
     // ---- setup (uncontrolled, on the main thread) ----
     for (long i = 0; i < nsubs; i++) {
-        void *mem = fresh(i);
-        Obj &x = objs[i];
-        x.p = new (mem) sub_t(*pub, mode_of(specs[i].mode));
+        void *mem = w.fresh(i);
+        Obj &x = w.objs[i];
+        x.p = new (mem) sub_t(*w.pub, mode_of(w.specs[i].mode));
         x.live = true;
         pt::g.handle2sub[(long)x.p->_h] = i;
         pt::Rec r;
         r.kind = 5;
         r.arg = i;
         r.a = (long)x.p->_h;
-        r.b = (long)q->_regs[x.p->_h]._pos;
+        r.b = (long)w.q->_regs[x.p->_h]._pos;
         pt::g.recs.push_back(r);
     }
-    std::vector<std::coroutine_handle<fire::promise_type>> coros(nsubs);
+    w.coros.assign(nsubs, nullptr);
     for (long i = 0; i < nsubs; i++)
-        if (specs[i].style == 1 && specs[i].cnt > 0) coros[i] = awaiting_loop(i, objs[i].p, specs[i].cnt).h;
+        if (w.specs[i].style == 1 && w.specs[i].cnt > 0) w.coros[i] = awaiting_loop(&w, i, w.objs[i].p, w.specs[i].cnt).h;
 
     // ---- thread bodies ----
     std::vector<std::function<void()>> fns;
     fns.push_back([&] {
-        for (size_t j = 0; j < prog.size(); j++) {
-            const auto &op = prog[j];
-            const size_t n = op.size();
-            // which ops are executed (PubThreadDefs.pub_tag), and whether the model rejects them
-            int what = -1;   // -1 skip
-            if (n == 2 && op[0] == 0) what = 0;
-            else if (n >= 1 && op[0] == 1) what = 1;
-            else if (n == 1 && op[0] == 10) what = 10;
-            else if (n == 1 && op[0] == 12) what = 12;
-            else if (n == 2 && op[0] == 8 && small(op[1])) what = 8;
-            else if (n == 3 && op[0] == 4 && small(op[1]) && small(op[2]) && op[1] >= nsubs) what = 4;
-            else if (n == 2 && op[0] == 9 && small(op[1]) && op[1] >= nsubs) what = 9;
-            bool yielded = false;
-            if (n == 2 && op[0] == 9 && small(op[1]) && op[1] < nsubs) {
-                // whether the coroutine is parked is decided when this step is scheduled, not when the thread arrives
-                ctl::point("step");
-                yielded = true;
-                if (specs[op[1]].style == 1 && pt::g.parked_coro[op[1]]) what = 9;
-            }
-            if (what < 0) {
-                if (!yielded) ctl::point("step");
-                pt::Rec r;
-                r.tid = 0;
-                r.kind = 4;
-                r.arg = (long)j;
-                pt::g.recs.push_back(r);
-                continue;
-            }
-            bool rejected = false;
-            auto find = [&](long s) -> Obj * {
-                auto it = objs.find(s);
-                return it == objs.end() ? nullptr : &it->second;
-            };
-            if (what == 0 || what == 1 || what == 10 || what == 12) rejected = !pub;
-            else if (what == 8) {
-                Obj *x = find(op[1]);
-                rejected = !x || (!pub && !x->live);
-            } else if (what == 4) {
-                Obj *src = find(op[2]);
-                rejected = find(op[1]) || !src || !src->live;
-            } else if (what == 9) {
-                Obj *x = find(op[1]);
-                rejected = !x || !x->live;
-            }
-            if (rejected) {
-                if (!yielded) ctl::point("step");
-                pt::Rec r;
-                r.tid = 0;
-                r.kind = 3;
-                r.arg = (long)j;
-                r.st = 1;
-                pt::g.recs.push_back(r);
-                continue;
-            }
-            pt::t_skip_yield = yielded;
-            pt::t_pub_pending = true;
-            pt::t_pub_index = (long)j;
-            pt::t_pub_rec = -1;
-            switch (what) {
-                case 0:
-                    if (op[1] & 1) pub->publish(pint((int)op[1]));
-                    else { const pint v((int)op[1]); pub->publish(v); }
-                    break;
-                case 1: {
-                    std::vector<pint> vs;
-                    for (size_t i = 1; i < n; i++) vs.push_back(pint((int)op[i]));
-                    pub->publish(vs.begin(), vs.end());
-                    break;
-                }
-                case 10: pub->close(); break;
-                case 12: pub.reset(); break;
-                case 8: {
-                    Obj *x = find(op[1]);
-                    if (pub) pub->kick(x->p);
-                    else x->p->kick_me();
-                    break;
-                }
-                case 4: {
-                    Obj *src = find(op[2]);
-                    void *mem = fresh(op[1]);
-                    Obj &x = objs[op[1]];
-                    x.p = new (mem) sub_t(*src->p);
-                    x.live = true;
-                    pt::g.handle2sub[(long)x.p->_h] = op[1];
-                    if (pt::t_pub_rec >= 0) {
-                        pt::g.recs[pt::t_pub_rec].a = (long)x.p->_h;
-                        pt::g.recs[pt::t_pub_rec].b = (long)q->_regs[x.p->_h]._pos;
-                    }
-                    break;
-                }
-                case 9: {
-                    Obj *x = find(op[1]);
-                    if (op[1] < nsubs && coros[op[1]]) {   // the parked coroutine goes away with its subscriber
-                        coros[op[1]].destroy();
-                        coros[op[1]] = nullptr;
-                        pt::g.parked_coro[op[1]] = 0;
-                    }
-                    x->p->~sub_t();
-                    x->live = false;
-                    break;
-                }
-            }
-            pt::t_pub_pending = false;
-        }
+        for (size_t j = 0; j < progA.size(); j++) w.exec_op(200, 202, (long)j, progA[j], false);
     });
     for (long i = 0; i < nsubs; i++) {
         fns.push_back([&, i] {
-            sub_t *s = objs[i].p;
-            const SubSpec &sp = specs[i];
+            sub_t *s = w.objs[i].p;
+            const SubSpec &sp = w.specs[i];
             if (sp.style == 0) {
                 for (long k = 0; k < sp.cnt; k++) {
                     bool r = (k % 2 == 0) ? (bool)s->next() : (s->begin() != s->end());
                     pt::ret_event(i, r, r ? (s->_val.has_value() ? (long)(int)*s->_val : -1) : 0, true);
                     if (!r) break;
+                    if (sp.act && w.act(i)) break;
                 }
             } else if (sp.style == 1) {
-                if (coros[i]) coros[i].resume();
+                // started the way cocls starts its coroutines: under the thread's coro_queue
+                if (w.coros[i]) coro_queue::install_queue_and_resume(w.coros[i]);
             } else {
                 for (long k = 0; k < sp.cnt; k++) {
                     bool r = s->next_ready();
                     pt::ret_event(i, r, r ? (long)(int)s->value() : 0, false);
+                    if (r && sp.act && w.act(i)) break;
                 }
             }
         });
     }
+    fns.push_back([&] {
+        for (size_t j = 0; j < progB.size(); j++) w.exec_op(203, 204, (long)j, progB[j], false);
+    });
     ctl::Controller c;
     c.run(std::move(fns), sched);
     pt::print_lines();
@@ -454,11 +504,11 @@ static void run_case(const vh::Case &cs) {
     }
     // ---- cleanup (uncontrolled) ----
     pt::g.q = nullptr;
-    for (auto &h : coros)
+    for (auto &h : w.coros)
         if (h) h.destroy();
-    for (auto &kv : objs)
+    for (auto &kv : w.objs)
         if (kv.second.live) kv.second.p->~sub_t();
-    pub.reset();
+    w.pub.reset();
 }
 
 int main(int argc, char **argv) {
